@@ -47,6 +47,11 @@
     closed-loop matrix of the original problem (`sda_fixed_point_closed_loop_power`,
     `ricc_closed_loop_is_witness`, `ricc_error_closed_loop`) and the end-to-end return contract
     (`ricc_return_error`).
+  * Entry points (model `lyapEntry`, `mQuadraticSum`, `riccEntry`): the method `ValueError` is raised iff
+    the method string is not one of the two legal ones (`lyapEntry_badMethod_iff`,
+    `riccEntry_badMethod_iff`), delegation iff `bartels-stewart` (`lyapEntry_external_iff`), every
+    `max_it ≤ 1` raises with `n_its = 2` (`lyapEntry_small_maxIt`), `m_quadratic_sum` returns the truncated
+    series of its docstring (`mQuadraticSum_spec`), `N = None` is `zeros((n, k))` (`riccEntry_none_eq_zeros`).
   `np.linalg.solve` enters through the hypothesis `SolSpec` (returned solutions solve an
   invertible system); `np.linalg.cond` values are inputs of the γ rule.
   What is not proved (decided by the spec run of harness/c06.py only):
@@ -1263,5 +1268,94 @@ example : (match riccDoubling sol1 ((1 : ℚ) / 10000000000) 500 1 (M.ofRows [[1
     | some (.ok _ p _) => decide (1 ≤ p) | _ => false) = true := by decide +kernel
 
 end riccati_return_error
+
+section entry_points
+variable {K : Type} [Field K] [LinearOrder K] [IsStrictOrderedRing K]
+
+/-- **lyapEntry_badMethod_iff.** `solve_discrete_lyapunov` raises the "Check your method input"
+    `ValueError` iff the method string is neither `"doubling"` nor `"bartels-stewart"` (whatever the other
+    arguments are). -/
+theorem lyapEntry_badMethod_iff (tol : K) (method : String) (maxIt : Int) (A B : M K) :
+    (match lyapEntry tol method maxIt A B with | .badMethod => True | _ => False) ↔
+      (method ≠ "doubling" ∧ method ≠ "bartels-stewart") := by
+  unfold lyapEntry
+  by_cases h1 : method = "doubling"
+  · simp only [h1, if_true]
+    cases lyapDoubling tol maxIt.toNat A B <;> simp
+  · by_cases h2 : method = "bartels-stewart"
+    · simp [h1, h2]
+    · simp [h1, h2]
+
+/-- **lyapEntry_external_iff.** The call is delegated to SciPy iff `method = "bartels-stewart"`. -/
+theorem lyapEntry_external_iff (tol : K) (method : String) (maxIt : Int) (A B : M K) :
+    (match lyapEntry tol method maxIt A B with | .external => True | _ => False) ↔
+      method = "bartels-stewart" := by
+  unfold lyapEntry
+  by_cases h1 : method = "doubling"
+  · simp only [h1, if_true]
+    cases lyapDoubling tol maxIt.toNat A B <;> simp
+  · by_cases h2 : method = "bartels-stewart"
+    · simp [h2]
+    · simp [h1, h2]
+
+/-- **lyapEntry_small_maxIt.** With the doubling method every `max_it ≤ 1` (zero and negative integers
+    included) raises the iteration `ValueError` after the first pass, reporting `n_its = 2`, for all
+    `A`, `B` and `tol`. -/
+theorem lyapEntry_small_maxIt (tol : K) (maxIt : Int) (A B : M K) (h : maxIt ≤ 1) :
+    (match lyapEntry tol "doubling" maxIt A B with | .maxit n => n = 2 | _ => False) := by
+  unfold lyapEntry lyapDoubling
+  have hn : maxIt.toNat ≤ 1 := by omega
+  simp only [if_true, lyapLoop]
+  rw [if_pos (by omega)]
+
+/-- **mQuadraticSum_spec.** `m_quadratic_sum(A, B, max_it)`: a normal return is the truncated series its
+    docstring promises, `V = Σ_{j<2^(its-1)} A^j B (A')^j`, with `2 ≤ its ≤ max_it`, and its Lyapunov
+    residual is exactly the tail term. -/
+theorem mQuadraticSum_spec {n : ℕ} (tol : K) (maxIt : Int) (A B X : M K) (its : ℕ)
+    (hA : Dim A n n) (hB : Dim B n n) (h : mQuadraticSum tol maxIt A B = .ok X its) :
+    2 ≤ its ∧ (its : Int) ≤ maxIt ∧
+    toMat n n X = ∑ j ∈ range (2 ^ (its - 1)), toMat n n A ^ j * toMat n n B * (toMat n n A)ᵀ ^ j ∧
+    toMat n n A * toMat n n X * (toMat n n A)ᵀ - toMat n n X + toMat n n B
+      = toMat n n A ^ (2 ^ (its - 1)) * toMat n n B * (toMat n n A)ᵀ ^ (2 ^ (its - 1)) := by
+  unfold mQuadraticSum lyapEntry at h
+  simp only [if_true] at h
+  cases hd : lyapDoubling tol maxIt.toNat A B with
+  | maxit n ds => rw [hd] at h; cases h
+  | ok X' n ds =>
+    rw [hd] at h
+    simp only [LyapEntryOut.ok.injEq] at h
+    obtain ⟨rfl, rfl⟩ := h
+    obtain ⟨h2, hle, hX, hres, _⟩ := lyap_return_spec tol maxIt.toNat A B X' n ds hA hB hd
+    exact ⟨h2, by omega, hX, hres⟩
+
+/-- **riccEntry_none_eq_zeros.** Omitting `N` is the same as passing `np.zeros((n, k))` with
+    `n = R.shape[0]`, `k = Q.shape[0]`, for every method and all other arguments. -/
+theorem riccEntry_none_eq_zeros (sol : M K → M K → Option (M K)) (tol : K) (maxIter : ℕ) (g : K)
+    (method : String) (A B Q R : M K) :
+    riccEntry sol tol maxIter g method A B Q R none
+      = riccEntry sol tol maxIter g method A B Q R (some (zero R.nr Q.nr)) := rfl
+
+/-- **riccEntry_badMethod_iff.** `solve_discrete_riccati` raises the method `ValueError` iff the method
+    string is neither `"doubling"` nor `"qz"`; in that case nothing else is evaluated. -/
+theorem riccEntry_badMethod_iff (sol : M K → M K → Option (M K)) (tol : K) (maxIter : ℕ) (g : K)
+    (method : String) (A B Q R : M K) (N? : Option (M K)) :
+    (match riccEntry sol tol maxIter g method A B Q R N? with | .badMethod => True | _ => False) ↔
+      (method ≠ "doubling" ∧ method ≠ "qz") := by
+  unfold riccEntry
+  by_cases h1 : method = "doubling"
+  · simp [h1]
+  · by_cases h2 : method = "qz"
+    · simp [h2]
+    · simp [h1, h2]
+
+/-- non-vacuity -/
+example : (match lyapEntry (0 : ℚ) "doubling" (-3) (M.ofRows [[1 / 2]]) (M.ofRows [[1]]) with
+    | .maxit n => decide (n = 2) | _ => false) = true := by decide +kernel
+example : (match mQuadraticSum ((1 : ℚ) / 1000000000000000) 50 (M.ofRows [[1 / 2]]) (M.ofRows [[1]]) with
+    | .ok _ its => decide (its = 7) | _ => false) = true := by decide +kernel
+example : (match lyapEntry (0 : ℚ) "qz" 50 (M.ofRows [[1 / 2]]) (M.ofRows [[1]]) with
+    | .badMethod => true | _ => false) = true := by decide +kernel
+
+end entry_points
 
 end QE.C06
